@@ -40,6 +40,35 @@ var vxC19Ctx = [][2]string{
 	{"x := a - -", "b\n"},
 	{"x := 1", "px\n"},
 	{"switch x {\ncase 1", ":\n\ty()\n}\n"},
+	// depth / spacing decisions (redundant parentheses, nested operands, several arguments)
+	{"x := f(", "(a + b)) * c, d)\n"},
+	{"x := v[", "(a + b)) * c]\n"},
+	{"p, q := (", "(a + b)) * c, d\n"},
+	{"if (", "(a + b)) * c > 1 {\n}\n"},
+	{"x := f((a ", " b) * c, d)\n"},
+	{"x := a + b", " * c - d/e\n"},
+	{"x := f(a+b", "c*d, e)\n"},
+	// layout decisions that depend on source lines
+	{"x := f(a,", "b)\n"},
+	{"x := []int{1,", "2}\n"},
+	{"x := {\"a\": 1,", "\"b\": 2}\n"},
+	{"func f() { ", " }\n"},
+	{"x := func() { ", " }\n"},
+	{"x := a +", "b*c\n"},
+	{"var a = 1", "var b = 2\n"},
+	// comments at unusual places
+	{"func g(a, b int) int { /* first */ return a*b + a /* second */ ", "}\n"},
+	{"func g(a, b int) int { /* first */ return a*b + a /* the quick brown fox jumps over the lazy dog the quick brown fox jumps over the lazy dog and keeps running over the hills */ ", "}\n"},
+	{"x := func(a int) int { /* one */ return a /* two */ ", "}\n"},
+	{"x := f(y => /* in lambda */ y", ")\n"},
+	{"echo a, /* in command */", " b\n"},
+	{"x := [a /* in comprehension */ for a in b", "]\n"},
+	{"y := [c\"a\", //", "\n\tc\"b\"]\n"},
+	{"x := 1\n", "\n// at the end"},
+	{"x := f(a, // after a\n\tb", ")\n"},
+	{"if x { // then\n\ty()\n} else { // otherwise", "\n\tz()\n}\n"},
+	{"type T struct {\n\t// lead\n\tA int // line", "\n\tB int\n}\n"},
+	{"x := a?:/* dflt */", "1\n"},
 }
 
 func vxFmtSig(n ast.Node) string {
@@ -57,6 +86,17 @@ func vxFmtSig(n ast.Node) string {
 		}
 		if ft, isFT := n.(*ast.FuncType); isFT && c == ast.Node(ft.Results) && ft.Results != nil && len(ft.Results.List) == 0 {
 			continue // an empty result list '()' is not printed (as in gofmt)
+		}
+		if pe, isPE := c.(*ast.ParenExpr); isPE {
+			// ((e)) is printed as (e) (as in gofmt): nested parentheses count once
+			for {
+				inner, ok := pe.X.(*ast.ParenExpr)
+				if !ok {
+					break
+				}
+				pe = inner
+			}
+			c = pe
 		}
 		if _, isImp := c.(*ast.ImportSpec); isImp {
 			imports = append(imports, vxFmtSig(c)) // order of imports within a group may change
@@ -113,6 +153,14 @@ func VxC19() {
 		return // not a syntactically valid source
 	}
 	vxReach("valid")
+	if vxParam("KF_DECLSEMI") == 1 && vxDeclAfterSemi(f) {
+		vxReach("declaration-after-bare-semicolon")
+		return // open known finding: see known_findings.json C19-decl-after-bare-semicolon
+	}
+	if vxParam("WHICH") == 20 && vxIdemKnown(fset, f) {
+		vxReach("known-non-idempotent-shape")
+		return // open known findings of C20 (classes assumed away when the KF_* parameters are 1)
+	}
 	out, ferr := Source(src, false, "a.xgo")
 	vxAssert(ferr == nil, "formatting a syntactically valid source fails")
 	if ferr != nil {
@@ -176,4 +224,59 @@ func vxNormComment(lit string) string {
 		i = j + 1
 	}
 	return string(out)
+}
+
+// vxDeclAfterSemi: the script's entry function starts with empty statements followed by a declaration
+// statement ('var a = 1;;var b = 2': after a bare ';' the parser is in statement mode, so 'var b' is a
+// local declaration of the entry function).
+func vxDeclAfterSemi(f *ast.File) bool {
+	for _, d := range f.Decls {
+		fd, ok := d.(*ast.FuncDecl)
+		if !ok || !fd.Shadow || fd.Body == nil {
+			continue
+		}
+		sawEmpty := false
+		for _, st := range fd.Body.List {
+			if _, isEmpty := st.(*ast.EmptyStmt); isEmpty {
+				sawEmpty = true
+				continue
+			}
+			_, isDecl := st.(*ast.DeclStmt)
+			return sawEmpty && isDecl
+		}
+	}
+	return false
+}
+
+// vxIdemKnown: the source belongs to one of the open known-finding classes of C20.
+//
+//	KF_ONELINE_EMPTY  a function body written on one line that contains an empty statement ('{ ; }'):
+//	                  printed as '{  }' first and '{}' next (same behaviour in gofmt)
+//	KF_PAREN_LINES    redundant nested parentheses whose opening parentheses are on different lines
+//	KF_ENV_LINES      '$' and the name of an environment expression on different lines
+func vxIdemKnown(fset *token.FileSet, f *ast.File) bool {
+	found := false
+	line := func(p token.Pos) int { return fset.Position(p).Line }
+	ast.Inspect(f, func(n ast.Node) bool {
+		switch x := n.(type) {
+		case *ast.BlockStmt:
+			if vxParam("KF_ONELINE_EMPTY") == 1 && x.Lbrace.IsValid() && x.Rbrace.IsValid() && line(x.Lbrace) == line(x.Rbrace) {
+				for _, st := range x.List {
+					if _, ok := st.(*ast.EmptyStmt); ok {
+						found = true
+					}
+				}
+			}
+		case *ast.ParenExpr:
+			if inner, ok := x.X.(*ast.ParenExpr); ok && vxParam("KF_PAREN_LINES") == 1 && line(x.Lparen) != line(inner.Lparen) {
+				found = true
+			}
+		case *ast.EnvExpr:
+			if vxParam("KF_ENV_LINES") == 1 && x.Name != nil && line(x.TokPos) != line(x.Name.Pos()) {
+				found = true
+			}
+		}
+		return !found
+	})
+	return found
 }
